@@ -75,11 +75,16 @@ inductive FileId where
   | seeds | hashes | infra | count | ts
   deriving DecidableEq, Repr
 
+/-- a preseed is named by the draw that produced it: (number of the run that drew it, position among
+that run's draws) - the index into the stream of fresh random draws a folder sees over its history.
+Two preseeds are the same draw iff these pairs are equal. -/
+abbrev Draw := Nat × Nat
+
 /-- content of the hash file: dictionary key ↦ stored hash (= version number) -/
 abbrev Store := List (String × Nat)
 
 structure Disk where
-  seeds : FileSt Nat            -- emis_preseed.p : number of stored seeds
+  seeds : FileSt (List Draw)    -- emis_preseed.p : the stored preseeds, each named by the draw that produced it
   hashes : FileSt Store         -- gen_infrastructure_hashes.p
   infra : FileSt Gen            -- gen_infrastructure.p
   emis : Nat → FileSt Gen       -- gen_infrastructure_emissions_{i}.p
@@ -97,7 +102,7 @@ def Disk.setEmis (d : Disk) (i : Nat) (v : FileSt Gen) : Disk :=
 
 /-- atomic file effects -/
 inductive Step where
-  | wrSeeds (n : Nat)
+  | wrSeeds (l : List Draw)
   | wrHashes (s : Store)
   | wrInfra (g : Gen)
   | wrEmis (i : Nat) (g : Gen)
@@ -113,7 +118,7 @@ def Disk.remove (d : Disk) : FileId → Disk
 
 def Step.apply (s : Step) (d : Disk) : Disk :=
   match s with
-  | .wrSeeds n => { d with seeds := .ok n }
+  | .wrSeeds l => { d with seeds := .ok l }
   | .wrHashes st => { d with hashes := .ok st }
   | .wrInfra g => { d with infra := .ok g }
   | .wrEmis i g => d.setEmis i (.ok g)
@@ -170,6 +175,10 @@ structure Tbl where
   /-- `gen_seed_timeseries` reuses the stored series only if it covers exactly the current first
   and last day (true), or already when its length matches (false: the unrepaired rule) -/
   tsExact : Bool
+  /-- `gen_seed_emis` draws the preseeds from a generator it rebuilds with a fixed seed on every call
+  (true: the stream restarts, every call replays the draws of "run 0") instead of the process-wide
+  generator (false: every draw is a fresh one) -/
+  seedRestart : Bool
   /-- `hash_file` feeds the whole file to the hasher (loop until EOF / unbounded read); false: a
   single bounded read, i.e. only a first block -/
   hashWholeFile : Bool
@@ -221,12 +230,17 @@ def instPhases (ph : List Phase) (g : Gen) (lo n : Nat) : List Step :=
 
 /-! ### one run -/
 
+/-- the `cnt` draws number `k`, `k+1`, ... of run `gid` (of "run 0" when the stream restarts) -/
+def newDraws (t : Tbl) (gid : Nat) : (k cnt : Nat) → List Draw
+  | _, 0 => []
+  | k, c + 1 => (if t.seedRestart then 0 else gid, k) :: newDraws t gid (k + 1) c
+
 /-- `gen_seed_emis`: steps and `force_remake`; `none` = the run fails loudly (torn seed file) -/
-def seedsStage (n : Nat) (d : Disk) : Option (List Step × Bool) :=
+def seedsStage (t : Tbl) (gid n : Nat) (d : Disk) : Option (List Step × Bool) :=
   match d.seeds with
   | .torn => none
-  | .absent => some ([.wrSeeds n], true)
-  | .ok m => some (if m < n then [.wrSeeds n] else [], false)
+  | .absent => some ([.wrSeeds (newDraws t gid 0 n)], true)
+  | .ok l => some (if l.length < n then [.wrSeeds (l ++ newDraws t gid 0 (n - l.length))] else [], false)
 
 /-- `initialize_infrastructure`: steps, infrastructure in memory, `hash_file_exist` -/
 def infraStage (t : Tbl) (vv : VV) (gid : Nat) (force : Bool) (d : Disk) :
@@ -272,7 +286,7 @@ structure Plan where
   deriving Repr
 
 def plan (t : Tbl) (vv : VV) (gid n : Nat) (d : Disk) : Plan :=
-  match seedsStage n d with
+  match seedsStage t gid n d with
   | none => ⟨[], none⟩
   | some (s1, force) =>
     match infraStage t vv gid force d with
